@@ -522,8 +522,10 @@ fn nonce_case() -> impl Strategy<Value = NonceCase> {
         prop::option::weighted(
             0.6,
             prop_oneof![
-                4 => prop::collection::vec(any::<u8>(), 32..=32),
-                1 => prop::collection::vec(any::<u8>(), 0..100),
+                8 => prop::collection::vec(any::<u8>(), 32..=32),
+                2 => prop::collection::vec(any::<u8>(), 0..100),
+                1 => Just(vec![]),
+                1 => prop::collection::vec(any::<u8>(), 1..=1),
             ],
         ),
         any::<[u8; 32]>(),
@@ -547,6 +549,9 @@ fn check_nonce(c: &NonceCase, obs: &mut Obs) -> Result<(), Fail> {
     };
     let got = generate_epoch_nonce(Hash::from(c.nc), Hash::from(c.nh), c.extra_entropy.as_deref());
     let with = if c.extra_entropy.is_some() { "with-extra-entropy" } else { "without-extra-entropy" };
+    if c.extra_entropy.as_ref().is_some_and(|e| e.is_empty()) {
+        obs.class("epoch-nonce:with-empty-extra-entropy");
+    }
     pv_ensure!(*got == want, format!("epoch-nonce-differs-from-reference:{with}"),
         "generate_epoch_nonce = {got} but the Praos composition gives {}", hex::encode(want));
     // rolling nonce: prev ⭒ H(vrf output)
